@@ -362,6 +362,10 @@ func (kvsEngine) Exec(spec *Spec) *Result {
 	res.Steps = sim.Stats.Steps
 	res.SimNanos = sim.Stats.SimNanos
 	res.count("switches", int64(sim.Stats.Switches))
+	if sim.Stats.ChanOps > 0 {
+		res.count("chan_ops", int64(sim.Stats.ChanOps))
+		res.count("chan_blocks", int64(sim.Stats.ChanBlock))
+	}
 	res.count("cond_waits", int64(sim.Stats.CondWait))
 	res.count("mutex_blocks", int64(sim.Stats.MutexBlock))
 	if v := outcomeViolation(spec.Property, sim.Outcome, "main run"); v != nil {
